@@ -2,6 +2,7 @@
 from __future__ import annotations
 
 import itertools
+import os
 
 from hypothesis import strategies as st
 
@@ -247,10 +248,80 @@ def check_long(case, stats=None):
         raise Violation('long-partition', dict(case, got=got, whole=whole))
 
 
+def big_texts(tier):
+    """(name, text, dlm, policy): deterministic large inputs - many records per chunk, fields longer than a chunk, and
+    tokens (CRLF, a quoted field with a line break, a doubled quote, a multi-byte character) straddling the offsets
+    1024*k (default chunk size) and 8192 (decode block of the text layer)."""
+    out = []
+    out.append(('short-rows', ''.join('%d,a\n' % i for i in range(30000)), ',', 'quoted'))
+    out.append(('one-char-rows-crlf', ''.join('%s\r\n' % 'abcdefg'[i % 7] for i in range(20000)), ',', 'simple'))
+    out.append(('long-fields', ''.join('%d,"%s",%s\n' % (i, 'x' * (1500 + 37 * i) + '""' + 'y' * 900, 'z' * (i * 211 % 3000)) for i in range(12)), ',', 'quoted_rfc'))
+    line = 'abcdefgh,"q,1",xyz\r\n'
+    tokens = [('crlf', '\r\n'), ('quoted-break', '"a,\r\nb"'), ('doubled-quote', '"a""b"'), ('4-byte', '\U0001d11e'), ('2-byte', '\xe9'), ('cr-cr-lf', '\r\r\n')]
+    shifts = (-3, -2, -1, 0, 1, 2) if tier == 'quick' else tuple(range(-6, 7))
+    for target in (1024, 2048, 8192):
+        for shift in shifts:
+            for name, tok in tokens:
+                body = ''
+                while len(body) + len(line) <= target + shift - 8:
+                    body += line
+                body += 'p' * max(target + shift - len(body) - 2, 0) + ','
+                body += tok + ',tail\r\n' + line * 3
+                out.append(('%s@%d%+d' % (name, target, shift), body, ',', 'quoted_rfc'))
+    return out
+
+
+def check_big(name, text, dlm, policy, scratch, stats):
+    cfg = {'kind': 'big', 'name': name, 'policy': policy, 'delim': dlm, 'size': len(text)}
+    exp = expected(text, dlm, policy, None, False, '\ufeff')
+    data = text.encode('utf-8')
+    modes = [('text-1024', lambda: observe(PiecewiseText([text]), None, dlm, policy, None, False, 1024)),
+             ('text-4099', lambda: observe(PiecewiseText([text]), None, dlm, policy, None, False, 4099)),
+             ('text-whole', lambda: observe(PiecewiseText([text]), None, dlm, policy, None, False, len(text) + 1)),
+             ('utf8-1024', lambda: observe(PiecewiseRaw([data]), 'utf-8', dlm, policy, None, False, 1024)),
+             ('utf8-pieces-1000-cs-64', lambda: observe(PiecewiseRaw([data[i:i + 1000] for i in range(0, len(data), 1000)]), 'utf-8', dlm, policy, None, False, 64))]
+    if len(text) <= 20000:
+        modes.append(('text-1', lambda: observe(PiecewiseText([text]), None, dlm, policy, None, False, 1)))
+    path = os.path.join(scratch, 'c12_big_%d.csv' % os.getpid())
+    with open(path, 'wb') as f:
+        f.write(data)
+
+    def from_file():
+        with open(path, 'rb') as f:
+            return observe(f, 'utf-8', dlm, policy, None, False, 1024)
+    modes.append(('file-utf8', from_file))
+    for label, fn in modes:
+        got = fn()
+        stats.evaluations += 1
+        stats.nontrivial_counted += 1
+        if got != exp:
+            d = dict(cfg, mode=label)
+            if got[0] is None or exp[0] is None:
+                d['got'], d['expected'] = repr(got)[:300], repr(exp)[:300]
+            else:
+                d['n_records'] = (len(got[0]), len(exp[0]))
+                d['first_diff'] = next((i for i, (x, y) in enumerate(zip(got[0], exp[0])) if x != y), None)
+                d['warnings'] = (got[2], exp[2])
+            os.unlink(path)
+            raise Violation('big-input-' + label.split('-')[0], d)
+    os.unlink(path)
+
+
 def shard_random(shard, nshards, tier, seed, scratch):
     total = 3000 if tier == 'quick' else 80000
     stats = Stats()
     fails = run_hypothesis(st_long(), lambda c: check_long(c, stats), max(1, total // nshards), seed, shrink_budget=300 if tier == 'quick' else 2000)
+    seen = set()
+    for i, (name, text, dlm, policy) in enumerate(big_texts(tier)):
+        if i % nshards != shard:
+            continue
+        try:
+            check_big(name, text, dlm, policy, scratch, stats)
+            stats.bump('big-input')
+        except Violation as v:
+            if v.clause not in seen:
+                seen.add(v.clause)
+                fails.append({'clause': v.clause, 'detail': v.detail, 'case': {'kind': 'big', 'name': name}})
     for f in fails:
         f['leg'] = 'random'
     return {'stats': stats.export(), 'failures': fails}
@@ -258,6 +329,16 @@ def shard_random(shard, nshards, tier, seed, scratch):
 
 def replay(case, clause=None):
     kind = case.get('kind')
+    if kind == 'big':
+        import tempfile, shutil
+        d = tempfile.mkdtemp(prefix='vf_c12_')
+        try:
+            for name, text, dlm, policy in big_texts('thorough'):
+                if name == case['name']:
+                    check_big(name, text, dlm, policy, d, Stats())
+        finally:
+            shutil.rmtree(d, ignore_errors=True)
+        return
     if kind == 'text':
         check_text(case['text'], case['delim'], case['policy'], case['comment'], case['header'], Stats())
     elif kind == 'long':
